@@ -815,15 +815,22 @@ theorem jar_name_identity (base : Bytes) (ms : List Node) (d : Bytes)
 theorem jar_without_metainf_not_reported (path : Bytes) (ms : List Node)
     (hm : hasMetaInf ms = false) (hj : isPrefix sJavax (lastComp path) = false) :
     scan path ms = [] := by
-  simp [scan, maxNesting, parse, own, extractProperties, hm, hj]
+  unfold scan
+  split <;> simp [maxNesting, parse, own, extractProperties, hm, hj]
 
 /-- What is reported for an archive: what it says about itself, then, for
     every bundled archive in member order, what that one reports — marked with
     the member it came from (whose SHA-1 becomes the RepositoryHint). -/
 theorem jar_bundled_archives_reported (path : Bytes) (ms : List Node) (is : List Info)
-    (ho : own (lastComp path) ms = some is) :
+    (hp : picked path = true) (ho : own (lastComp path) ms = some is) :
     scan path ms = is ++ innerWith (parse 6 false) true ms := by
-  simp [scan, maxNesting, parse, ho]
+  simp [scan, hp, maxNesting, parse, ho]
+
+/-- Only files with a jar/war/ear/jpi/hpi extension that are no whiteouts are
+    looked at. -/
+theorem jar_only_archives_examined (path : Bytes) (ms : List Node) (h : picked path = false) :
+    scan path ms = [] := by
+  simp [scan, h]
 
 /-- The nesting limit: at the eighth level an archive is still identified,
     what is bundled in it is not examined. -/
